@@ -10,7 +10,7 @@ def run(tier):
     q = ctx.quick
     builds = ["prod-avx2", "asan-avx2", "prod-sse"] if q else \
         ["prod-avx2", "asan-avx2", "prod-sse", "asan-sse", "prod-dyn", "asan-dyn"]
-    pads = [0, 1, 31, 32, 33, 63, 64, 65] if q else sorted(set(range(0, 9)) | {15, 16, 17, 31, 32, 33, 34, 47, 48, 49, 63, 64, 65, 66, 70})
+    pads = [0, 1, 31, 32, 33, 63, 64, 65] if q else [0, 1, 2, 7, 8, 15, 16, 31, 32, 33, 63, 64]
     corpora = T.corpora(ctx, "C03")
     total = 0
     allpairs = set()
